@@ -69,7 +69,7 @@ LIGHT = [   # the C03 engine's quick tier only needs the texts: small bounds, no
 ]
 
 
-def mc_cases(wd, tier, out=None, light=False):
+def mc_cases(wd, tier, out=None, light=False, prop=None):
     """Run the writer (exhaustive + simulation); returns the path of the REPLAY file.
     Also used by the C03 engine (every C01/C02 input counts for totality)."""
     replay = os.path.join(wd, "docs.replay")
@@ -78,6 +78,10 @@ def mc_cases(wd, tier, out=None, light=False):
         jobs.append(("exhaustive%d" % k, consts, None, None))
     for k, (consts, num, depth) in enumerate([] if light else SIM[tier]):
         jobs.append(("simulate%d" % k, consts, num, depth))
+
+    if prop == "C02":
+        # runs without bad actions only produce well-formed documents: nothing C02 could judge
+        jobs = [j for j in jobs if j[1]["MaxBad"] != 0]
 
     def one(job):
         name, consts, num, depth = job
@@ -318,7 +322,7 @@ def run(prop, tier):
     try:
         import time
         t0 = time.time()
-        replay = mc_cases(wd, tier, out)
+        replay = mc_cases(wd, tier, out, prop=prop)
         t1 = time.time()
         rnd = random_cases(wd, tier, out)
         t2 = time.time()
